@@ -24,7 +24,7 @@ EXPLANATION = (
     "or a decrease s - x control dependent on s > x for the very x that is taken (not merely s > 0); hence without bunds the ponding stays 0. C03.c: a water-content cell "
     "that is set to a hydraulic bound (saturation, adjusted field capacity) takes the bound of the same compartment. C03.d: threshold locals feeding a store into compartment j are computed from compartment j's own hydraulic properties "
     "(layer-change idiom for the net-irrigation refill). C03.e: no per-compartment array is subscripted with a layer number. C03.g: a store to the ponding depth made with bunds present is the bund height, min(., bund height), guarded by a comparison with it, a decrease, or followed on every path by the overtopping cap. C03.h (sibling agreement): the stage-1 and stage-2 extraction loops of soil_evaporation have the same statements and tests after renaming (incl. the clamp of negative available water below the evaporation layer). C03.f: the field management "
-    "in force follows the growing-season flag (in-season object when True, fallow object when False; constant propagation with distinct abstract objects). C03.i (= C19.f, sibling agreement): the two implementations of the adjusted field capacity (initialisation, daily) have the same tests and defining expressions after renaming - each compartment's level comes from its own field capacity and saturation, which keeps the content drainage and capillary rise aim at within [FC, saturation] of that compartment. NOT decided: "
+    "in force follows the growing-season flag (in-season object when True, fallow object when False; constant propagation with distinct abstract objects). C03.i (= C19.f, sibling agreement): the two implementations of the adjusted field capacity (initialisation, daily) have the same tests and defining expressions after renaming - each compartment's level comes from its own field capacity and saturation, which keeps the content drainage and capillary rise aim at within [FC, saturation] of that compartment. C03.k (decrease-then-floor, must-pass-through): where a water-content cell is lowered by an amount held in a local (root extraction), every definition of that amount reaches the store only through the comparison of the lowered content with the compartment's air-dry content. NOT decided: "
     "th >= th_dry and th <= th_s as numeric invariants, Wr >= 0.")
 
 BOUND_ATTRS = {"th_s", "th_fc_Adj", "th_fc"}
@@ -729,12 +729,80 @@ def rule_f(chk, prog, rule="C03.f"):
     chk.floor(rule, n, 2, "partitions of the row writer examined")
 
 
+def rule_k(chk, prog):
+    """C03.k (decrease-then-floor, must-pass-through): where a water-content cell is lowered by an amount held in a local,
+    `t[i] = u[i] - e` (root extraction), every definition of e reaches the store only through the comparison of `u[i] - e` with the
+    compartment's air-dry content (the test whose True branch re-assigns e = u[i] - th_dry[i]): no path from a definition of e to the
+    store avoids that test. An `elif` that makes the floor an alternative to another limit of e skips it exactly when that limit fired."""
+    roles = step_roles(prog)
+    step = prog.func(STEP_FN)
+    n = 0
+    for key in sorted(roles.reached):
+        fi = prog.funcs[key]
+        if not fi.module.startswith("aquacrop.solution"):
+            continue
+        wl = _water_locals(prog, fi, step)
+        flow = flow_of(fi)
+        cfg = flow.cfg
+        where = f"{fi.module}:{fi.qualname}"
+        for a in walk_no_nested(fi.node):
+            if not (isinstance(a, ast.Assign) and isinstance(a.targets[0], ast.Subscript) and _is_water_array(fi, a.targets[0].value, roles, wl)):
+                continue
+            v = a.value
+            if not (isinstance(v, ast.BinOp) and isinstance(v.op, ast.Sub) and isinstance(v.right, ast.Name) and isinstance(v.left, ast.Subscript)
+                    and norm(v.left.slice) == norm(a.targets[0].slice)):
+                continue
+            base = v.left
+            if not (_is_water_array(fi, base.value, roles, wl) or "th" in norm(base.value).lower()):
+                continue
+            nid = flow.stmt_node.get(id(a))
+            if nid is None:
+                continue
+            e = v.right.id
+            idx = norm(a.targets[0].slice)
+            # floor tests: (u[i] - e) < <th_dry>[i]   (or mirrored)
+            floors = set()
+            for t in cfg.live_nodes():
+                c = t.ast
+                if t.kind == "test" and isinstance(c, ast.Compare) and len(c.ops) == 1:
+                    l, r, op = c.left, c.comparators[0], c.ops[0]
+                    if isinstance(op, (ast.Gt, ast.GtE)):
+                        l, r = r, l
+                    elif not isinstance(op, (ast.Lt, ast.LtE)):
+                        continue
+                    if norm(l) == norm(v) and "dry" in norm(r).lower() and norm(getattr(r, "slice", ast.Constant(value=None))) == idx:
+                        floors.add(t.id)
+            if not floors:
+                continue                  # lowered towards another floor (drainage: the adjusted field capacity) - not this rule's subject
+            n += 1
+            chk.fn(key)
+            construct = norm(a)[:90]
+            bad = None
+            for d in flow.defs_reaching(e, nid):
+                if d == ENTRY:
+                    bad = "the incoming value"
+                    break
+                # a re-assignment under the True edge of the floor test is the floor itself
+                if any(t_ in floors and l_ is True for t_, l_ in cfg.transitive_control_deps(d)):
+                    continue
+                if any(cfg.paths_exist_avoiding(s_, nid, floors) for s_, _ in cfg.nodes[d].succs if s_ not in floors):
+                    bad = norm(cfg.nodes[d].ast)[:60]
+                    break
+            if bad is None:
+                chk.ok("C03.k", where, construct, f"every definition of {e} reaches the store through the air-dry floor test")
+            else:
+                chk.violation("C03.k", where, construct, f"`{bad}` reaches the store on a path that skips the comparison with the air-dry content: root extraction "
+                              "can take a compartment below air dry (even below zero)", loc=fi.loc(a))
+    chk.floor("C03.k", n, 1, "water-content cells lowered by an amount held in a local")
+
+
 def run(chk, prog, tier):
     rule_a(chk, prog)
     rule_b(chk, prog)
     rule_c(chk, prog)
     rule_d(chk, prog)
     rule_f(chk, prog)
+    rule_k(chk, prog)
     from ._siblings import evap_stage_agreement
     evap_stage_agreement(chk, prog, "C03.h")
     # C03.i: the adjusted field capacity (the level drainage and capillary rise fill a compartment to under a water table) is computed by two
